@@ -20,6 +20,7 @@ import (
 
 	"verif/harness/broker"
 	"verif/harness/memnet"
+	"verif/harness/reconlib"
 	"verif/harness/vrun"
 	"verif/harness/world"
 )
@@ -37,6 +38,8 @@ type scenario struct {
 	SlowWrites    bool     `json:"slow_transport_writes,omitempty"`
 	LastWrite     bool     `json:"write_in_flight_at_conn_close,omitempty"`
 	OutagePending []string `json:"calls_started_during_the_outage,omitempty"`
+	SlowLog       string   `json:"slow_logger_at,omitempty"`
+	SlowLogMs     int      `json:"slow_logger_ms,omitempty"`
 }
 
 var outagePendingKinds = []string{"WriteDataPoints", "Flush", "OpenUpstream", "OpenDownstream", "SendBaseTime", "SendCall"}
@@ -62,13 +65,18 @@ func gen(r *rand.Rand) scenario {
 			}
 		}
 	}
+	if s.Outage != "none" && r.Intn(3) == 0 {
+		// the application's logger blocks at one step of the reconnect / resume procedure: Close arrives in the middle of it
+		s.SlowLog = reconlib.SlowLogSites[r.Intn(len(reconlib.SlowLogSites))]
+		s.SlowLogMs = []int{300, 2500, 10000}[r.Intn(3)]
+	}
 	return s
 }
 
 func TestC10CloseIsFinal(t *testing.T) {
 	e := vrun.LoadEnv()
 	meta := vrun.Meta{Property: "C10", Workload: "TestC10CloseIsFinal", Total: e.Pick(300, 80000),
-		Rule: "virtual time: generated prefix history (0-2 upstreams with writes, 0-2 downstreams with unread chunks buffered, unread incoming calls, a drawn subset of {ReadDataPoints, ReadMetadata, ReceiveCall, ReceiveReplyCall, SendCallAndWaitReplayCall, OpenUpstream, SendBaseTime} pending at the moment of closing), then Close in one of the orders {streams then conn, conn only with streams left open, stream Close twice then conn} from 1-4 goroutines at once, optionally during an outage {dead link not yet detected, redial refused, redial whose ConnectResponse is withheld, resume response withheld}. Oracle: (a) after Close returned every public method of the closed object returns within 1 virtual second (context deadline 10 s), does not panic, does not succeed, and its error is errors.Is ErrConnectionClosed or ErrStreamClosed (hence ErrISCP); (b) after the client's Disconnect the broker sees nothing but Ping/Pong from it and no new dial happens; (c) closed notifications at most once per object; (d) after the broker side is closed too and 5 virtual minutes have passed, no goroutine created by the library is alive in the bubble. non-trivial = at least one stream or pending call existed at close; distinct = scenario tuple",
+		Rule: "virtual time: generated prefix history (0-2 upstreams with writes, 0-2 downstreams with unread chunks buffered, unread incoming calls, a drawn subset of {ReadDataPoints, ReadMetadata, ReceiveCall, ReceiveReplyCall, SendCallAndWaitReplayCall, OpenUpstream, SendBaseTime} pending at the moment of closing), then Close in one of the orders {streams then conn, conn only with streams left open, stream Close twice then conn} from 1-4 goroutines at once, optionally during an outage {dead link not yet detected, redial refused, redial whose ConnectResponse is withheld, resume response withheld}, in a third of those with an application logger that blocks 0.3-10 s at one step of the reconnect / resume procedure. Oracle: (a) after Close returned every public method of the closed object returns within 1 virtual second (context deadline 10 s), does not panic, does not succeed, and its error is errors.Is ErrConnectionClosed or ErrStreamClosed (hence ErrISCP); (b) after the client's Disconnect the broker sees nothing but Ping/Pong from it and no new dial happens; (c) closed notifications at most once per object; (d) after the broker side is closed too and 5 virtual minutes have passed, no goroutine created by the library is alive in the bubble. non-trivial = at least one stream or pending call existed at close; distinct = scenario tuple",
 		Assumptions: []string{"repeating Close itself is judged only for not panicking, not blocking and not notifying again (its error value is not judged)",
 			"'promptly' is judged as: returns within 1 s of virtual time although its context would allow 10 s",
 			"calls on a stream that was left open when the CONNECTION was closed are judged one virtual second after Conn.Close returned (the stream is cancelled asynchronously by a watcher)"}}
@@ -196,8 +204,12 @@ func run(s scenario) vrun.Result {
 	}
 	w.Start()
 	var disc atomic.Int64
-	conn, err := w.Connect(iscp.WithConnPingInterval(time.Second), iscp.WithConnPingTimeout(time.Second),
-		iscp.WithConnDisconnectedEventHandler(iscp.DisconnectedEventHandlerFunc(func(*iscp.DisconnectedEvent) { disc.Add(1) })))
+	copts := []iscp.ConnOption{iscp.WithConnPingInterval(time.Second), iscp.WithConnPingTimeout(time.Second),
+		iscp.WithConnDisconnectedEventHandler(iscp.DisconnectedEventHandlerFunc(func(*iscp.DisconnectedEvent) { disc.Add(1) }))}
+	if s.SlowLog != "" {
+		copts = append(copts, iscp.WithConnLogger(reconlib.NewSlowLogger(s.SlowLog, time.Duration(s.SlowLogMs)*time.Millisecond)))
+	}
+	conn, err := w.Connect(copts...)
 	if err != nil {
 		w.Close()
 		return vrun.Inconcl("connect: " + err.Error())
@@ -640,7 +652,7 @@ func run(s scenario) vrun.Result {
 		return vrun.Violation("library goroutines survive although the connection is closed, the peer is gone and 5 virtual minutes have passed", "goroutine-leak:"+key,
 			map[string]any{"goroutines": sites, "first": left[0].Text, "count": len(left)})
 	}
-	r := vrun.Hold(fmt.Sprintf("%d|%d|%d|%d|%d|%v|%s|%s|%d|%v|%v|%v", s.Ups, s.Downs, s.Writes, s.Buffered, s.BufferedCalls, s.Pending, s.Order, s.Outage, s.Closers, s.SlowWrites, s.LastWrite, s.OutagePending), len(ups)+len(downs)+len(s.Pending) > 0)
+	r := vrun.Hold(fmt.Sprintf("%d|%d|%d|%d|%d|%v|%s|%s|%d|%v|%v|%v|%s%d", s.Ups, s.Downs, s.Writes, s.Buffered, s.BufferedCalls, s.Pending, s.Order, s.Outage, s.Closers, s.SlowWrites, s.LastWrite, s.OutagePending, s.SlowLog, s.SlowLogMs), len(ups)+len(downs)+len(s.Pending) > 0)
 	r.Stat("post_close_calls_judged", int64(len(calls)))
 	r.Stat("streams_open_at_conn_close", int64(len(ups)+len(downs)))
 	r.AddSet("outages", s.Outage)
